@@ -217,14 +217,19 @@ fn hist_json(h: &Hist) -> Value {
 }
 
 fn decode_kind(t: &mut Tape) -> (Api, Kind) {
-    match t.below(7) {
+    match t.below(12) {
         0 => (Api::Flow, Kind::DefaultChunked),
         1 => (Api::Call, Kind::DefaultChunked),
         2 => (Api::Flow, Kind::ExplicitTe),
         3 => (Api::Call, Kind::ExplicitTe),
         4 => (Api::Flow, Kind::DespiteGet),
         5 => (Api::Flow, Kind::ExplicitTeAndHost),
-        _ => (Api::Call, Kind::ExplicitTeAndHost),
+        6 => (Api::Call, Kind::ExplicitTeAndHost),
+        7 => (Api::Flow, Kind::ExplicitTeOtherCase(false)),
+        8 => (Api::Call, Kind::ExplicitTeOtherCase(true)),
+        9 => (Api::Flow, Kind::TeAndCl(4)),
+        10 => (Api::Call, Kind::TeAndCl(4)),
+        _ => (Api::Flow, Kind::TeTwoLinesAndCl(4)),
     }
 }
 
@@ -306,14 +311,14 @@ const GRID_T: u64 = 301;
 pub static DEF: PropDef = PropDef {
     id: "C03",
     rule: "random: histories of 1..40 body writes (input length, output length) on a chunked body through \
-Flow<SendBody>::write or Call<WithBody>::write (default chunked / explicit TE / explicit TE and Host / despite-method), input lengths \
+Flow<SendBody>::write or Call<WithBody>::write (default chunked / explicit TE / explicit TE and Host / despite-method / TE spelled Chunked or CHUNKED / TE next to a Content-Length / codings on two lines), input lengths \
 {0 = finish, 1..40, 41..400, around 10240 and 20480, up to 25000, around 16 / 256 / 4096 / 65536}, output lengths {exact fit of the pending input -3..+5, \
 0..12, 13..64, k*10248-3..+13, anything smaller than the input, 64 KiB}; occasionally preceded by read-only accessors or a (not applicable) direct-write report, which must leave the body's state alone; \
 after every call the cumulative output is fed to \
 an incremental strict chunk decoder and must be whole non-empty chunks whose data equals the concatenated consumed \
 prefixes; terminator only from an empty write, at most once; finished() <=> terminator emitted; writes after the end: \
 non-empty refused, empty (0,0). enumeration 'grid': (input 0..40 [thorough 0..300]) x (output 0..64 [0..300]) x (finish \
-output 0..8) x 7 api/kind combinations. non-trivial = history with a finish and a write that left <= 5 bytes of space with \
+output 0..8) x 12 api/kind combinations (incl. Transfer-Encoding in another case, on two lines, next to a Content-Length). non-trivial = history with a finish and a write that left <= 5 bytes of space with \
 input pending or had an output < 6; distinct by decoded-choice digest.",
     assumptions: &[
         "an empty-input write is the end-of-body signal (documented), never a no-op probe",
@@ -323,12 +328,12 @@ input pending or had an output < 6; distinct by decoded-choice digest.",
     exec: exec_random,
     enums: &[EnumDef {
         name: "grid",
-        count: |t: Tier| 7 * 9 * t.pick(GRID_IN_Q * GRID_OUT_Q, GRID_T * GRID_T),
+        count: |t: Tier| 12 * 9 * t.pick(GRID_IN_Q * GRID_OUT_Q, GRID_T * GRID_T),
         tape: |tier, idx| {
             let (ni, no) = tier.pick((GRID_IN_Q, GRID_OUT_Q), (GRID_T, GRID_T));
-            let k = idx % 7;
-            let f = (idx / 7) % 9;
-            let r = idx / 63;
+            let k = idx % 12;
+            let f = (idx / 12) % 9;
+            let r = idx / 108;
             let _ = ni;
             vec![k as u32, (r / no) as u32, (r % no) as u32, f as u32]
         },
